@@ -357,8 +357,8 @@ def main(argv=None):
     t_start = time.time()
     cfg = {
         "timeout_ms": 10000 if tier == "quick" else 120000,
-        "case_deadline_s": 90 if tier == "quick" else 3000,
-        "run_deadline": time.time() + (900 if tier == "quick" else 6 * 3600),
+        "case_deadline_s": 240 if tier == "quick" else 3000,
+        "run_deadline": time.time() + (1800 if tier == "quick" else 6 * 3600),
         "max_paths": 4000 if tier == "quick" else 50000,
         "selfcheck_samples": 2 if tier == "quick" else 5,
     }
